@@ -439,17 +439,20 @@ func init() {
 	// the decoder reads the partition list as count + int32s where the encoder (and the schema) use one
 	// putCompactInt32Array call: same bytes, different call granularity
 	delete(dschemaBodies, "ListPartitionReassignmentsRequest")
-	// reads its nullable error message with getString (known finding): the calls differ from the schema's by design
-	delete(dschemaBodies, "DescribeAclsResponse")
+
 }
 
 // bodies whose decode makes the calls the schema's decoder makes (same primitives in the same order)
 var dschemaBodies = map[string]bool{}
 
+// OffsetFetchRequest v6+ reads its partition count as a raw uvarint (to tell the null list from the empty one):
+// same bytes as the schema's compact count, different call
+func dschemaFits(name string, ver int16) bool { return !(name == "OffsetFetchRequest" && ver >= 6) }
+
 // values outside what the schema language expresses (documented in CodecSchemas.lean): none so far
 func schemaFits(name string, ver int16, toks string) bool {
 	// OffsetFetchRequest v6+: a nil partition list is written as the null compact array (`putUVarint(0)`), a form
-	// the schema language has no constructor for (its decoder cannot tell it from the empty array, see findings)
+	// the schema language has no constructor for
 	if name == "OffsetFetchRequest" && ver >= 6 && strings.Contains(" "+toks+" ", " uv:0 ") {
 		return false
 	}
@@ -506,7 +509,7 @@ func bodyCase(name string, ver int16, shape int, small bool, caseSeed uint64) {
 		v2 := b.New()
 		d := sarama.VerifDecodeBodyTraced(e1.Bytes, v2, ver)
 		run.Emit("dec "+hx(e1.Bytes)+" "+d.Toks, decAnswer(d))
-		if dschemaBodies[b.Name] && d.Err == nil && d.Off == len(e1.Bytes) {
+		if dschemaBodies[b.Name] && dschemaFits(b.Name, ver) && d.Err == nil && d.Off == len(e1.Bytes) {
 			run.Emit(fmt.Sprintf("dschema %s %d %s", b.Name, ver, hx(e1.Bytes)), decAnswer(d))
 			run.Count("dschema:" + b.Name)
 		}
